@@ -346,6 +346,8 @@ def h_db_undo(i: int, j: int, two: bool, storage: str) -> None:
     reached()
 
 
+from zverif.harness.c13 import h_directed_undo_pack as _blob_undo  # noqa: E402
+
 HARNESSES = [
     Harness('undo_tid', h_undo_tid,
             decides='undo(id) for every 8-byte id: succeeds exactly for undoable transactions, writes the pre-transaction '
@@ -369,6 +371,12 @@ HARNESSES = [
             oracle='model_undo applied sequentially', code=['FileStorage.undo (tindex path)', '_transactionalUndoRecord'],
             quick=dict(timeout=120, shards=shards(which=['A', 'B', 'D'])),
             thorough=dict(timeout=300, shards=shards(which=['A', 'B', 'D']))),
+    Harness('blob_undo', _blob_undo,
+            decides='undo of blob transactions: the blob reads the previous bytes again (also after undo of the undo), an undo of an older '
+                    'blob write is refused if the blob was written again later, a failing undo changes nothing (C13 directed_undo_pack)',
+            symbolic='3 booleans (undo / further write / second undo), second-blob selector, final step selector', bounds='programs of 5-10 steps; real scratch directory',
+            oracle='blob revision model', code=['FileStorage._txn_undo_write (blob copy)', '_transactionalUndoRecord', 'BlobStorage.undo'],
+            quick=dict(timeout=150, shards=shards(kind=['file', 'proxy'])), thorough=dict(timeout=300, shards=shards(kind=['file', 'proxy']))),
 ]
 
 MANIFEST = dict(
